@@ -203,8 +203,9 @@ def write_evidence(prop, tier, seed, agg, wall, det, extra_assumptions=()):
         "wall_s": round(wall, 2),
         "violations": len(agg.violations),
     }
-    os.makedirs(os.path.join(VERIF_DIR, "evidence"), exist_ok=True)
-    jdump(ev, os.path.join(VERIF_DIR, "evidence", prop + ".json"))
+    evdir = os.environ.get("VERIF_EVIDENCE_DIR") or os.path.join(VERIF_DIR, "evidence")
+    os.makedirs(evdir, exist_ok=True)
+    jdump(ev, os.path.join(evdir, prop + ".json"))
     return zero
 
 
@@ -229,7 +230,7 @@ def report_violation(prop, s, repo, cfg):
             raise HarnessError("violation kind %s of run %s found with in-process module isolation does not reproduce in a freshly forked process" % (kind, s["index"]))
         # shrink with the cheap in-process isolation, then confirm the result in a fresh process
         runner.set_isolation("reimport")
-        small, stats = minimise.minimise(spec, kind, runner.evaluate, max_cands=300, max_s=60.0)
+        small, stats = minimise.minimise(spec, kind, runner.evaluate, max_cands=600, max_s=90.0)
         runner.set_isolation("fork")
         viols, result, _ = runner.evaluate(json.loads(json.dumps(small)))
         if not any(v["kind"] == kind for v in viols):
@@ -253,7 +254,7 @@ def report_violation(prop, s, repo, cfg):
         "spec": small,
         "how_to_replay": "./check %s --replay <this file>   (expected outcomes are recomputed from the tree, not stored)" % prop,
     }
-    d = os.path.join(VERIF_DIR, "replays")
+    d = os.environ.get("VERIF_REPLAY_DIR") or os.path.join(VERIF_DIR, "replays")
     os.makedirs(d, exist_ok=True)
     path = os.path.join(d, "%s-%s-%s.json" % (prop, spec.get("seed"), spec.get("run_index")))
     jdump(rep, path)
@@ -277,22 +278,24 @@ def cmd_check(args):
     pending = set()
     stop = False
     max_runs = int(args.max_runs or t["max_runs"])
+    chunk = 4
     try:
         while True:
-            while not stop and len(pending) < workers * 3 and nxt < max_runs and time.time() - t0 < budget:
-                pending.add(pool.submit(runner.one_run, (prop, seed, nxt)))
-                nxt += 1
+            while not stop and len(pending) < workers * 2 and nxt < max_runs and time.time() - t0 < budget:
+                n = min(chunk, max_runs - nxt)
+                pending.add(pool.submit(runner.run_chunk, (prop, seed, nxt, n)))
+                nxt += n
             if not pending:
                 break
             done, pending = cf.wait(pending, timeout=300, return_when=cf.FIRST_COMPLETED)
             if not done:
                 raise HarnessError("no run completed within 300 s")
             for f in done:
-                s = f.result()
-                agg.add(s)
-                if "harness_error" in s or (not s.get("ok", True)):
-                    if len(agg.violations) >= 3 or agg.harness_errors:
-                        stop = True
+                for s in f.result():
+                    agg.add(s)
+                    if "harness_error" in s or (not s.get("ok", True)):
+                        if len(agg.violations) >= 3 or agg.harness_errors:
+                            stop = True
             if agg.violations and time.time() - t0 > budget * 0.5:
                 stop = True
     except (HarnessError, cf.process.BrokenProcessPool) as e:
